@@ -521,9 +521,9 @@ recode_qp(const char *buf, const off_t len)
 				sendbuf[idx++] = '.';
 				chunk = 0;
 			} else if ((buf[off + chunk] == '\t') || (buf[off + chunk] == ' ')) {
-				/* recode whitespace if a linebreak follows */
-				if ((off + (off_t) chunk < len) &&
-						((buf[off + chunk + 1] == '\r') || (buf[off + chunk + 1] == '\n'))) {
+				/* recode whitespace if a linebreak or the end of the buffer follows */
+				if ((off + (off_t) chunk + 1 == len) ||
+						(buf[off + chunk + 1] == '\r') || (buf[off + chunk + 1] == '\n')) {
 					memcpy(sendbuf + idx, buf + off, chunk);
 					off += chunk;
 					idx += chunk;
@@ -537,7 +537,8 @@ recode_qp(const char *buf, const off_t len)
 					}
 					sendbuf[idx++] = '\r';
 					sendbuf[idx++] = '\n';
-					if (buf[++off] == '\r')
+					off++;
+					if ((off < len) && (buf[off] == '\r'))
 						off++;
 					if ((off < len) && (buf[off] == '\n'))
 						off++;
